@@ -49,7 +49,8 @@ def strategy(tier):
     depth = 3 if tier == "quick" else 4
     return st.fixed_dictionaries({
         "tree": _tree(depth),
-        "mode": st.sampled_from(["dir-abs", "dir-abs", "dir-rel", "dir-dot", "dir-dotslash", "file-abs", "file-rel"]),
+        "mode": st.sampled_from(["dir-abs", "dir-abs", "dir-rel", "dir-dot", "dir-dotslash", "file-abs", "file-rel", "dir-after-other",
+                                  "file-after-dir"]),
         "prefix": st.sampled_from([None, None, ["-p", "pfx"], ["-p", "My.Proj"], ["cfg", "cfgpfx"], ["-p", "p q"], ["-p", "préfix"]]),
         "sep": st.sampled_from(SEPS),
         "ext_titles": st.booleans(),
@@ -108,7 +109,7 @@ def check_page(text, rel, mod_case, case, prefix_applies, prefix, res, titles, m
             if not rest.endswith(tail):
                 res.fail(f"{what}-stem", f"{where}: {what} {val!r} does not end with {tail!r}")
                 continue
-            if not keep_ext and rest.endswith(".cmake"):
+            if not keep_ext and rest.endswith(".cmake") and not stem.endswith(".cmake"):
                 res.fail(f"{what}-extension-kept", f"{where}: {what} {val!r} keeps the extension")
             body = rest[:len(rest) - len(tail)]
             pos = 0
@@ -186,14 +187,14 @@ def evaluate(case):
         if lone:
             target_rel, target_mc = files[case["pick"] % len(files)]
             fabs = os.path.join(inp, target_rel)
-            if case["mode"] == "file-abs":
+            if case["mode"] in ("file-abs", "file-after-dir"):
                 arg = fabs
             else:
                 cwd = os.path.dirname(fabs)
                 arg = os.path.basename(fabs)
             argv = [arg, "-o", out, "-s", cfg]
         else:
-            if case["mode"] == "dir-abs":
+            if case["mode"] in ("dir-abs", "dir-after-other"):
                 arg = inp
             elif case["mode"] == "dir-rel":
                 cwd, arg = sb.root, "in"
@@ -204,6 +205,14 @@ def evaluate(case):
             argv = [arg, "-o", out, "-s", cfg, "-r"]
         if case["prefix"] and case["prefix"][0] == "-p":
             argv += case["prefix"]
+        if case["mode"] in ("dir-after-other", "file-after-dir"):
+            # another directory is documented first in the same invocation (names disjoint from the tree under test)
+            other = sb.path("else", "otherdir")
+            os.makedirs(os.path.join(other, "zz_o"))
+            for nm in ("zz_first.cmake", "zz_o/zz_second.cmake"):
+                with open(os.path.join(other, nm), "w") as f:
+                    f.write("function(zz_fn a)\nendfunction()\n")
+            argv = [other] + argv
         run = S.run_main(argv, cwd=cwd)
         if run.exc is not None or run.code != 0:
             res.fail(exc_key(run.exc) if run.exc else f"exit-{run.code}", (repr(run.exc) + run.stderr)[-300:])
